@@ -154,6 +154,17 @@ pub fn c02(tier: &str, seed: u64) -> Vec<Case> {
         }
         v.push(c);
     }
+    // a second excluded point: opaque data of length zero (RFC 1035 3.3.10 allows it, `NULL::new(&[])` accepts it):
+    // RDLENGTH 0 is read back as `RData::Empty(type)`, another variant - `NULL(t, [])` and `Empty(t)` share one wire form
+    for code in [10u16, 300] {
+        let mut p = Packet::new_reply(2);
+        p.answers.push(ResourceRecord::new(Name::new_unchecked("a"), CLASS::IN, 5, rdata::RData::NULL(code, rdata::NULL::new(&[]).unwrap())));
+        let (out, bytes) = build_out(&p, false);
+        let mut c = Case::oracle_only().tag("null-no-data");
+        let same = bytes.as_ref().and_then(|b| Packet::parse(b).ok().map(|q| matches!(q.answers.get(0).map(|a| &a.rdata), Some(rdata::RData::NULL(c2, n)) if *c2 == code && n.get_data().is_empty()))).unwrap_or(false);
+        if !same { c = c.fail("null-no-data", format!("a record of type {} with zero octets of opaque data is written with RDLENGTH 0 and parses back as empty RDATA, another variant ({})", code, class_of(&out))); }
+        v.push(c);
+    }
     v
 }
 
